@@ -313,4 +313,43 @@ def shapeOf (rows : List (List α)) : Nat × List Nat := (rows.length, rows.map 
 def shapeAccepted (n R : Nat) (rows : List (List α)) : Bool :=
   rows.length == n && rows.all (fun row => row.length == R)
 
+/-! ## `Database.generate_draws` for ANY generator (native or user defined)
+
+What a generator delivered is a numpy array: its `shape` (any number of dimensions) and its
+elements in row-major order.  The code tests `array.shape != (sample_size, number_of_draws)`
+for each variable in the order of `names` and raises on the first one that fails; the accepted
+arrays are stacked (`np.array(list_of_draws)`, variables first) and the variable axis is moved
+to the end (`np.moveaxis(·, 0, -1)`). -/
+
+/-- what the generator of one variable delivered -/
+structure Delivered (α : Type) where
+  dims : List Nat          -- `array.shape`
+  flat : List α            -- the elements, row-major
+
+/-- the test of the code: the shape *is* `(n, R)` — the same number of elements in another
+    layout (transposed, one-dimensional, extra axes of length 1) is not enough -/
+def dimsAccepted (n R : Nat) (dims : List Nat) : Bool := dims == [n, R]
+
+/-- number of elements of an array of that shape -/
+def dimsCount (dims : List Nat) : Nat := dims.foldr (· * ·) 1
+
+/-- position (counted from `i`) of the first variable whose array is refused -/
+def firstRefused (n R : Nat) : Nat → List (List Nat) → Option Nat
+  | _, [] => none
+  | i, d :: t => if dimsAccepted n R d then firstRefused n R (i + 1) t else some i
+
+/-- element `[i][j]` of an `(n, R)` array given by its elements in row-major order -/
+def elemAt (R i j : Nat) (a : List α) : α := a.getD (i * R + j) (0 : α)
+
+/-- the table of draws: `table[i][j][v] = list_of_draws[v][i][j]` (observations × draws ×
+    variables); `arrays` are the accepted `(n, R)` arrays, flat -/
+def drawsTable (n R : Nat) (arrays : List (List α)) : List (List (List α)) :=
+  (List.range n).map fun i => (List.range R).map fun j => arrays.map (elemAt R i j)
+
+/-- `Database.generate_draws`: `.error v` = BiogemeError raised for variable number `v` -/
+def generateDraws (n R : Nat) (vars : List (Delivered α)) : Except Nat (List (List (List α))) :=
+  match firstRefused n R 0 (vars.map (·.dims)) with
+  | some v => .error v
+  | none => .ok (drawsTable n R (vars.map (·.flat)))
+
 end Draws
